@@ -57,6 +57,9 @@ pub struct FaultCase {
 }
 
 pub struct RunLog {
+    /// (kind, file offset) of every delivered fault and the final image (to name the site)
+    pub sites: Vec<(CallKind, u64)>,
+    pub final_image: Vec<u8>,
     /// one entry per attempt: (step index, result summary)
     pub results: Vec<(usize, Result<String, String>)>,
     pub problems: Vec<(String, String)>,
@@ -80,6 +83,9 @@ struct Env {
     strict: bool,
     max_buf: usize,
     version: u16,
+    /// a fault struck during a structural call (create/remove/setter/open): the
+    /// on-disk state after that is outside what C13 promises
+    structural_fault: bool,
 }
 
 fn pause(ctl: &FaultCtl) -> bool {
@@ -307,6 +313,25 @@ impl Env {
                         }
                         Err(e) => problems.push(("lost".into(), format!("step {} flush returned Ok but a fresh handle on {} cannot read: {}", idx, path, e))),
                     }
+                    // ... and they are in the compound file: the bytes alone reopen to them
+                    // (judged only when every fault so far struck during a write-back, i.e. during a
+                    // write / flush / set_len / seek on a handle; after a failed structural call the
+                    // property only promises "no panic, later calls may fail")
+                    let image = if self.structural_fault { Vec::new() } else { self.mem.snapshot() };
+                    if !self.structural_fault {
+                    let reread = (|| -> Result<Vec<u8>, String> {
+                        let mut l = ops::Live::open(image, false)?;
+                        let mut f = l.comp.open_stream(&path).map_err(|e| format!("open_stream: {}", e))?;
+                        let mut got = Vec::new();
+                        f.read_to_end(&mut got).map_err(|e| format!("read: {}", e))?;
+                        Ok(got)
+                    })();
+                    match reread {
+                        Ok(got) if got == want => {}
+                        Ok(got) => problems.push(("lost".into(), format!("step {} flush returned Ok but the reopened file holds {} bytes in {}, accepted writes amount to {}", idx, got.len(), path, want.len()))),
+                        Err(e) => problems.push(("lost".into(), format!("step {} flush returned Ok but the reopened bytes do not yield {}: {}", idx, path, e))),
+                    }
+                    }
                 }
                 resume(&self.ctl, was);
                 Ok("flushed".into())
@@ -386,11 +411,11 @@ impl Env {
 pub fn run_case(c: &FaultCase, base: Option<&(Vec<u8>, BTreeMap<String, Vec<u8>>)>, reference: Option<&[Result<String, String>]>) -> RunLog {
     let ctl = FaultCtl::new();
     let mem = MemFile::new(base.map(|b| b.0.clone()).unwrap_or_default());
-    let mut env = Env { mem, ctl: ctl.clone(), comp: None, handles: Vec::new(), content: BTreeMap::new(), strict: false, max_buf: c.max_buf, version: c.version };
+    let mut env = Env { mem, ctl: ctl.clone(), comp: None, handles: Vec::new(), content: BTreeMap::new(), strict: false, max_buf: c.max_buf, version: c.version, structural_fault: false };
     let truth = if c.read_only { base.map(|b| &b.1) } else { None };
     let plan: BTreeMap<u64, Fault> = c.plan.iter().cloned().collect();
     ctl.arm(plan, true);
-    let mut log = RunLog { results: Vec::new(), problems: Vec::new(), calls: 0, log: Vec::new(), delivered: 0 };
+    let mut log = RunLog { sites: Vec::new(), final_image: Vec::new(), results: Vec::new(), problems: Vec::new(), calls: 0, log: Vec::new(), delivered: 0 };
     let mut attempt_id: u32 = 0;
     let run = guarded(|| {
         for (idx, step) in c.steps.iter().enumerate() {
@@ -405,6 +430,9 @@ pub fn run_case(c: &FaultCase, base: Option<&(Vec<u8>, BTreeMap<String, Vec<u8>>
                 // (C13) a fault delivered during this attempt => the attempt must be Err
                 let hits: Vec<(u64, CallKind, u32)> = ctl.delivered().into_iter().filter(|d| d.2 == attempt_id).collect();
                 let hard = hits.iter().any(|d| matches!(c.plan.iter().find(|p| p.0 == d.0).map(|p| p.1), Some(Fault::Fail)));
+                if hard && !matches!(step, WStep::Write(..) | WStep::Flush(_) | WStep::SetLen(..) | WStep::SeekStart(..) | WStep::SeekCur(..) | WStep::SeekEnd(..) | WStep::Read(..) | WStep::FillConsume(..)) {
+                    env.structural_fault = true;
+                }
                 if hard && res.is_ok() && !matches!(step, WStep::DropHandle(_)) {
                     log.problems.push((
                         "swallowed".into(),
@@ -444,8 +472,46 @@ pub fn run_case(c: &FaultCase, base: Option<&(Vec<u8>, BTreeMap<String, Vec<u8>>
     log.calls = ctl.count();
     log.log = ctl.log();
     log.delivered = ctl.delivered().len();
+    log.sites = ctl.delivered().iter().map(|d| d.1).zip(ctl.delivered_pos()).collect();
     ctl.disarm();
+    log.final_image = env.mem.snapshot();
     log
+}
+
+/// Names the place in the file a fault struck: region + field, not a number.
+pub fn site_name(image: &[u8], kind: CallKind, pos: u64) -> String {
+    let k = format!("{:?}", kind).to_lowercase();
+    if pos == u64::MAX {
+        return format!("{}@end", k);
+    }
+    if pos < 512 {
+        return format!("{}@header+{}", k, pos);
+    }
+    match crate::spec::parse(image) {
+        Err(_) => format!("{}@unparsed", k),
+        Ok(p) => {
+            let sl = p.sector_len as u64;
+            let sec = (pos / sl).saturating_sub(1) as u32;
+            let within = pos % sl;
+            if p.fat_sectors.contains(&sec) {
+                format!("{}@FAT", k)
+            } else if p.difat_sectors.contains(&sec) {
+                format!("{}@DIFAT", k)
+            } else if p.dir_sectors.contains(&sec) {
+                let entry_kind = {
+                    let i = p.dir_sectors.iter().position(|&s| s == sec).unwrap() as u64 * (sl / 128) + within / 128;
+                    if i == 0 { "root" } else { "entry" }
+                };
+                format!("{}@directory:{}+{}", k, entry_kind, within % 128)
+            } else if p.minifat_sectors.contains(&sec) {
+                format!("{}@MiniFAT", k)
+            } else if p.ministream_sectors.contains(&sec) {
+                format!("{}@ministream", k)
+            } else {
+                format!("{}@data", k)
+            }
+        }
+    }
 }
 
 pub struct FaultStats {
@@ -461,6 +527,9 @@ pub enum Pairs {
     None,
     /// both faults after the first step (Open / Create) has completed
     AfterFirstStep,
+    /// as AfterFirstStep, and the second fault within the next `n` underlying
+    /// calls of the first (the retry of the failed call and what follows it)
+    Near(u64),
     All,
 }
 
@@ -508,10 +577,14 @@ pub fn explore(ctx: &Ctx, base_case: &FaultCase, base: Option<&(Vec<u8>, BTreeMa
             calls += r1.calls;
             delivered += r1.delivered as u64;
             report_problems(ctx, &c, &r1);
-            if pairs == Pairs::All || (pairs == Pairs::AfterFirstStep && k1 >= first_step_end) {
+            let window = match pairs {
+                Pairs::Near(n) => n,
+                _ => u64::MAX,
+            };
+            if pairs == Pairs::All || (matches!(pairs, Pairs::AfterFirstStep | Pairs::Near(_)) && k1 >= first_step_end) {
                 for (k2, (kind, _)) in r1.log.iter().enumerate() {
                     let k2 = k2 as u64;
-                    if k2 <= k1 || !kinds.contains(kind) {
+                    if k2 <= k1 || !kinds.contains(kind) || k2 - k1 > window {
                         continue;
                     }
                     let mut c2 = base_case.clone();
@@ -541,7 +614,16 @@ fn report_problems(ctx: &Ctx, c: &FaultCase, r: &RunLog) {
         let core = msg.splitn(2, ": ").nth(1).unwrap_or(msg);
         // identity of the defect: class + which API step kind + normalised text
         let stepkind = msg.split_whitespace().nth(2).unwrap_or("").split('(').next().unwrap_or("").to_string();
-        let sig = if class == "panic" { format!("panic:{}", sig_norm(core)) } else { format!("{}:{}:{}", class, stepkind, sig_norm(core).chars().take(60).collect::<String>()) };
+        let sig = if class == "panic" {
+            format!("panic:{}", sig_norm(core))
+        } else if class == "lost" {
+            // identity of a durability defect: which kind of loss, and where the fault(s) struck
+            let sites: Vec<String> = r.sites.iter().map(|(k, p)| site_name(&r.final_image, *k, *p)).collect();
+            let what = if msg.contains("reopened") { "reopen" } else { "live" };
+            format!("lost:{}:fault-at:{}", what, sites.join("+"))
+        } else {
+            format!("{}:{}:{}", class, stepkind, sig_norm(core).chars().take(60).collect::<String>())
+        };
         ctx.report(Violation { class: class.clone(), sig, msg: format!("[{} v{} plan {:?}] {}", c.workload, c.version, c.plan, msg), replay: json!({"kind": "fault", "fault": c}) });
     }
 }
